@@ -230,11 +230,11 @@ Proof.
     destruct (upd (mems s m)) as [|next| |] eqn:Eu; try discriminate.
     destruct (save_busy (mems s m)); [discriminate|].
     assert (Hnc : in_campaign (ctl (mems s m)) = false) by (apply not_in_campaign_of_upd; [exact I|rewrite Eu; reflexivity]).
-    assert (Hgen : forall u, idle_upd u = false -> Ctl (set_mem s m (with_upd (mems s m) u))).
+    assert (Hgen : forall u, idle_upd u = false -> Ctl (set_mem s m (with_upd (refreshed (mems s m) (W s)) u))).
     { intros u Hu. unfold set_mem. ctl6; std.
     all: try solve [ intros Hv _; apply E2; [exact Hv|]; apply busy_of_upd; rewrite Eu; reflexivity ].
     all: try solve [ rewrite Hnc; discriminate ]. }
-    destruct (need_save (mems s m) next); inj; apply Hgen; reflexivity.
+    destruct (need_save (refreshed (mems s m) (W s)) next); inj; apply Hgen; reflexivity.
   - (* LUpdSave *)
     destruct (upd (mems s m)) as [| |next|] eqn:Eu; try discriminate.
     set (t := next + interval s) in H.
@@ -273,11 +273,11 @@ Proof.
     destruct (save_busy (mems s m)); [discriminate|].
     assert (Hnc : in_campaign (ctl (mems s m)) = false) by (apply not_in_campaign_of_ur; [exact I|rewrite Er; reflexivity]).
     assert (Hp : phys (mems s m) <> None) by (apply UR; rewrite Er; reflexivity).
-    assert (Hgen : forall u, idle_ur u = false -> Ctl (set_mem s m (with_ur (mems s m) u))).
+    assert (Hgen : forall u, idle_ur u = false -> Ctl (set_mem s m (with_ur (refreshed (mems s m) (W s)) u))).
     { intros u Hu. unfold set_mem. ctl6; std.
     all: try solve [ intros Hv _; apply E2; [exact Hv|]; apply busy_of_ur; rewrite Er; reflexivity ].
     all: try solve [ rewrite Hnc; discriminate ]. }
-    destruct (need_save (mems s m) p); inj; apply Hgen; reflexivity.
+    destruct (need_save (refreshed (mems s m) (W s)) p); inj; apply Hgen; reflexivity.
   - (* LURSave *)
     destruct (ur (mems s m)) as [| |p l0|] eqn:Er; try discriminate.
     set (t := p + interval s) in H.
@@ -346,4 +346,18 @@ Proof.
     all: try solve [ intros Hv Hb; apply E2; [exact Hv|]; unfold busy; unfold busy_of in Hb; cbn in Hb; rewrite Ec; cbn; try reflexivity; exact Hb ].
     all: try solve [ intros Hs; specialize (SYN _ Hs); congruence ].
     all: try solve [ rewrite Hr; discriminate ].
+  - (* LUpdAbort *)
+    destruct (upd (mems s m)) as [|next| |] eqn:Eu; try discriminate.
+    destruct (save_busy (mems s m)); [discriminate|]. destruct (unsure (mems s m)); [|discriminate]. inj. unfold set_mem.
+    assert (Hnc : in_campaign (ctl (mems s m)) = false) by (apply not_in_campaign_of_upd; [exact I|rewrite Eu; reflexivity]).
+    ctl6; std.
+    all: try solve [ intros Hv _; apply E2; [exact Hv|]; apply busy_of_upd; rewrite Eu; reflexivity ].
+    all: try solve [ rewrite Hnc; discriminate ].
+  - (* LURAbort *)
+    destruct (ur (mems s m)) as [|p l0| |] eqn:Er; try discriminate.
+    destruct (save_busy (mems s m)); [discriminate|]. destruct (unsure (mems s m)); [|discriminate]. inj. unfold set_mem.
+    assert (Hnc : in_campaign (ctl (mems s m)) = false) by (apply not_in_campaign_of_ur; [exact I|rewrite Er; reflexivity]).
+    ctl6; std.
+    all: try solve [ intros Hv _; apply E2; [exact Hv|]; apply busy_of_ur; rewrite Er; reflexivity ].
+    all: try solve [ rewrite Hnc; discriminate ].
 Qed.
